@@ -1791,7 +1791,7 @@ func (e *Bounds) param(p *ssa.Parameter, fr *frame, k Kind) AV {
 	if up >= maxUp || e.paramBusy[p] {
 		return TopAV(k)
 	}
-	edges := e.P.Callers(fn)
+	edges := e.P.RealCallers(fn)
 	if len(edges) == 0 || len(edges) > maxCaller {
 		return TopAV(k)
 	}
@@ -2615,7 +2615,7 @@ func (e *Bounds) sizedParam(p *ssa.Parameter, env *sizeEnv, up int) bool {
 	if up >= maxUp {
 		return false
 	}
-	edges := e.P.Callers(fn)
+	edges := e.P.RealCallers(fn)
 	if len(edges) == 0 || len(edges) > maxCaller {
 		st.params[p] = 2
 		return false
